@@ -36,7 +36,8 @@ PUBLIC_MEMBER_NAMES = {"nonce", "m_nonce"}
 def configs(tier):
     if tier == "quick":
         return [(repo.Config("asm"), ("O0", "O3")), (repo.Config("c32"), ("O0",)),
-                (repo.Config("direct"), ("O0",))]
+                (repo.Config("direct"), ("O0",)), (repo.Config("asm", 2, 1, 2), ("O0",)),
+                (repo.Config("c64", 3, 3, 3), ("O0",))]
     out = [(repo.Config(b), ("O0", "O3")) for b in repo.BACKENDS]
     out += [(repo.Config("asm", 2, 1, 2), ("O0", "O3")), (repo.Config("c64", 3, 3, 3), ("O0", "O3")),
             (repo.Config("asm", 4, 4, 4), ("O0",)), (repo.Config("c32", 2, 2, 2), ("O0",))]
